@@ -2,10 +2,9 @@ import os
 import re
 import sys
 
-from orchestrate.common import run_check
+from orchestrate.common import REPO, run_check
 
 E2E_KINDS = ("P", "R", "X", "G", "N", "K", "S")
-REPO = os.environ.get("VERIF_REPO", "/repo")
 
 # ---------------------------------------------------------------- census (structure pin)
 # Control-flow skeleton of the functions the interleaving semantics of Model/Streams.v was written
@@ -112,8 +111,9 @@ def census():
 
 
 def _events(ln):
+    """events of the LAST attempt of the scenario (earlier attempts, separated by NEXT, missed their window)"""
     out = ln.partition("|")[2]
-    i = out.find("T=")
+    i = out.rfind("T=")
     return out[i + 2:].split()[0].split(",") if i >= 0 else []
 
 
@@ -137,7 +137,7 @@ def _extra(lines, verdicts):
            "alloc_failures": 0, "dropped_never_written": 0, "dropped_before_write": 0, "dropped_after_write": 0,
            "dropped_after_response": 0, "max_outstanding_on_one_connection": 0, "exhaustion_runs_reaching_32768": 0,
            "oversized_frames_on_the_wire": 0, "not_run_env": 0, "exhaustion_runs_total": 0,
-           "exhaustion_runs_with_refusal_after_abandon_and_wait": 0, "frames_on_negative_stream_ids": 0,
+           "exhaustion_runs_with_refusal_after_abandon_and_wait": 0, "scenarios_with_repeated_attempts": 0, "frames_on_negative_stream_ids": 0,
            "threshold_runs_connection_ended": 0, "threshold_runs_connection_kept": 0,
            "callers_failed_by_orphan_threshold": 0, "submit_storm_runs": 0, "submit_storm_callers_aborted": 0}
     timed = {"cases": 0, "allocations_refused_after_real_wait": 0, "count_probes": 0}
@@ -151,6 +151,8 @@ def _extra(lines, verdicts):
                 continue
             ev = _events(ln)
             e2e["runs"] += 1
+            if " NEXT " in out:
+                e2e["scenarios_with_repeated_attempts"] += 1
             if k == "X":
                 e2e["exhaustion_runs_total"] += 1
                 seen_c = False
@@ -312,7 +314,7 @@ SPEC = {
              "multi-thread runtime, answers delayed and reordered; X = 32768 requests held by the mock, extra requests, callers "
              "abandoned, > 1 s wait, more requests, release; G = a response frame with a body > 256 MiB whose tail looks "
              "like frames for other in-flight streams; the merged history is judged by the extracted acceptor c02_trace_ok. "
-             "S = submit storm: up to 2000 caller tasks on 3 workers, each aborted from outside within 3 ms while the submissions race "
+             "S = submit storm: 1500-2000 caller tasks on 3 workers, up to 900 of them (about 7 in 12) aborted from outside within 3 ms while the submissions race "
              "for the 1024 channel slots (request id allocated -> slot awaited -> task pushed); N = R with about one answer in 12 sent on a negative stream id (-1, -2, -100, -32768, -32767); K = 1..1500 callers abandoned "
              "while the mock holds their answers: the orphaner's tick must end the connection iff more than 1024 ids have been "
              "orphaned for over 1 s (model: orphaner_tick_breaks), then every live caller fails and none holds rows. "
